@@ -747,7 +747,7 @@ def correspondence(ctx, budget=None):
     # the same DFS with USER-again among the actions (re-login with a listener open / being opened)
     exu = [([30001, 30002], 1, 6, 700), ([30001], 2, 5, 500)]
     if thorough:
-        exu = [([30001, 30002], 1, 8, 6000), ([30001, 30002], 2, 6, 6000), ([30001], 2, 7, 3000)]
+        exu = [([30001, 30002], 1, 8, 4000), ([30001, 30002], 2, 6, 3000), ([30001], 2, 7, 2000)]
     for ports, ms, depth, bud in exu:
         for d in exhaustive_dfs(ports, ms, depth, bud, False, with_user=True):
             drivers.append(("exhaustive-relogin", d))
